@@ -10,7 +10,7 @@ CLAIMED = {
     "C09": (
         "proof",
         "contract-based deductive verification, template route: the real compiler's bytecode for lock templates is denoted for all calldata/state and composed with itself (two-run re-entry contract), discharged by z3",
-        "Per lock template, pipeline and EVM target (transient and storage lock), for all calldata, values and prior state: at every outgoing call/create inside a protected function a second run "
+        "Per lock template, pipeline and EVM target (transient and storage lock), for all calldata, values and prior state: the generator get_nonreentrant_lock itself (function level, three targets x mutabilities: acquire fails iff locked, writes only the key, release unlocks, fresh contract unlocked, view observes without writing); at every outgoing call/create inside a protected function a second run "
         "of the contract entering any protected entry point (incl. __default__ under the pragma) fails; after a successful protected call (any return path, raw_return, loops, branches) the lock is free. "
         "Per-instance proofs over the lock template family; cross-contract call trees deeper than one re-entry are not modelled.",
         "Trusted: bytecode denotation (sem/), z3; the protected set is read from the front end. Violations are reported without a replayed transaction sequence (no-failing-input-found) "
@@ -50,7 +50,7 @@ CLAIMED = {
         "contract-based deductive verification, relational template contracts: the real compiler's bytecodes under two configurations run against one shared symbolic environment and are proved observationally equal by z3",
         "Per template (all of vverif/contracts/templates_lib.py incl. byte strings, dynamic arrays, external calls, raw_call, create_*, events) and configuration pair (legacy gas vs Venom O2; within each pipeline none/gas/codesize resp. none/O2/O3/Os; "
         "cancun vs paris for stateless templates), for ALL calldata, values, prior state and callee behaviours: same status, return/revert data, logs, outgoing calls (target, value, calldata) and final state (modulo unobservable slack of byte strings). "
-        "Cross-pipeline pairs of byte-string templates and non-linear arithmetic templates are thorough-tier only. Per-instance proofs; --disable-* flags and debug mode are not enumerated yet.",
+        "Every --disable-<optimisation> flag (except simplify-cfg, which makes the compiler panic), inline thresholds 0/1000 and debug mode against the plain configuration on 15 templates. Non-linear arithmetic templates are left to C03. Per-instance proofs.",
         "Trusted: bytecode denotation (sem/), z3/cvc5. Assumes the identity precompile copies its input, code sizes < 2**32, msize a multiple of 32 below 2**32. Storage layouts differ across EVM targets (slot 0 reserved before cancun), so stateful templates are not compared across targets.",
         "DESIGN.md 3/C02",
     ),
@@ -78,7 +78,7 @@ CLAIMED = {
         "SimpleAllocator.allocate_slot for all cursor/size/limit values: returns the old cursor, advances by n, raises iff the range would reach max_slot, hence allocations are ordered and pairwise disjoint. "
         "Layout overrides (37 cells: all permutations of a 4-variable layout, gaps up to 2**256-1, partial overlaps, same slot, missing entry, out of range, re-entrancy key missing/colliding, also across an initialised module): honoured exactly (reported layout == override) or rejected. "
         "Layout templates (mixed types incl. structs, arrays, HashMap, DynArray, Bytes, transient, nested structs, lock) x pipelines x targets, for ALL calldata/state: each setter writes only slots inside its variable's reported range "
-        "(HashMap: keccak-derived slot) or the reported re-entrancy key; reported ranges are pairwise disjoint. Per-instance for the templates; OverridingStorageAllocator itself is only covered through the decision table.",
+        "(HashMap: keccak-derived slot) or the reported re-entrancy key; reported ranges are pairwise disjoint. Function level: core.get_element_ptr in storage/transient (element inside the parent range, all words). Per-instance for the templates; OverridingStorageAllocator itself is only covered through the decision table.",
         "Trusted: bytecode denotation, z3, the PyVC executor, ideal keccak (A4). Immutables (code layout) are covered under C13, not here.",
         "DESIGN.md 3/C10",
     ),
@@ -87,7 +87,7 @@ CLAIMED = {
         "contract-based deductive verification, template route: init code (constructor arguments as a symbolic code tail) denoted for all arguments/values and proved equal to `bytecode_runtime ++ immutables` as assigned by the reference semantics of __init__; run-time reads of immutables via the reference semantics; blueprint preamble executed concretely",
         "Per constructor template (no arguments, word/bool/address/static-array arguments, payable, conditional values, early return, internal calls after an immutable was assigned, storage-only, no constructor) x pipeline x level x target, "
         "for ALL argument bytes (any length), call values and prior state: deployment succeeds iff the reference semantics of __init__ succeeds (no value unless payable, canonical arguments, no revert) and then installs exactly bytecode_runtime followed by "
-        "the immutables the constructor assigned, with its storage effects; the deployed run-time code reads those immutables back. blueprint_bytecode deploys exactly 0xFE7100 ++ bytecode. "
+        "the immutables the constructor assigned, with its storage effects; the deployed run-time code reads those immutables back. PyVC: _runtime_code_offsets (all inputs: the code copy and the immutables section never trample constructor memory). blueprint_bytecode deploys exactly 0xFE7100 ++ bytecode. "
         "Known finding F11 (constructor-less contracts accept value); F12 (Venom `return` in __init__ deployed empty code) repaired.",
         "Trusted: vverif/spec_source.py, bytecode denotation, z3. Dynamic constructor arguments and create_from_blueprint equivalence are not covered.",
         "DESIGN.md 3/C13",
@@ -97,7 +97,7 @@ CLAIMED = {
         "contract-based deductive verification, template route: bytecode vs reference semantics (bounds-checked subscripts, append/pop, slice/extract32/concat, loops; whole final state compared) on a container template family, all inputs, z3",
         "Per template (static-array reads with every index signedness incl. nested, local and storage writes with neighbouring variables, struct arrays, DynArray append/pop/write/read in storage, transient storage and memory, loops over arrays, "
         "slice/extract32/concat, length-dependent copies) and configuration, for ALL index/start/length words and prior state: the call succeeds iff the access is inside the object's current length and declared bound, returns the addressed data, "
-        "and the final storage/transient storage differs from the initial one exactly at the addressed element (whole-state comparison). Quick tier: for byte-string operations with symbolic start only the accept/revert decision and result length are decided; contents in the thorough tier.",
+        "and the final storage/transient storage differs from the initial one exactly at the addressed element (whole-state comparison). Function level: core.get_element_ptr for static/dynamic arrays x element sizes x counts x index types x memory/calldata (no revert iff 0 <= ix < length as integers; pointer inside the object; all words). Quick tier: for byte-string operations with symbolic start only the accept/revert decision and result length are decided; contents in the thorough tier.",
         "Trusted: vverif/spec_source.py, spec_abi.py, bytecode denotation, z3/cvc5. Small bounds only (arrays <= 4, byte strings <= 40). Memory-to-memory frames are observed only through returned values.",
         "DESIGN.md 3/C04",
     ),
@@ -106,8 +106,8 @@ CLAIMED = {
         "contract-based deductive verification, template route: bytecode vs reference semantics with the strict ABI decoder of vverif/spec_abi.py, all calldata, z3",
         "Per template (every class of argument word incl. flags, structs, nested static arrays; Bytes/String with bounds 3..33; DynArray of uint8/bool/int128/structs mixing wide and narrow members; word + byte string, two byte strings; "
         "keyword argument of byte-string type) and configuration, for ALL calldata (< 2**32 bytes): if the call succeeds, the values observed are the ABI decoding of the bytes (following the offsets) and lie in their types "
-        "(lengths within bounds, every scalar canonical, no address wrap-around); every canonical encoding of in-range values is accepted; other inputs may revert. Return data of external calls: C12; constructor arguments: C13.",
-        "Trusted: vverif/spec_abi.py (from the ABI specification), spec_source.py, bytecode denotation, z3. abi_decode() and dynamic return data of external calls are not in the reference semantics yet (covered relationally in C02/C12).",
+        "(lengths within bounds, every scalar canonical, no address wrap-around); every canonical encoding of in-range values is accepted; other inputs may revert. Dynamic return data of external calls (Bytes, String, with default_return_value; DynArray in the thorough tier): every read inside the payload. Function level: core.clamp_basetype for all 64 integer types, 32 bytesM, address, bool (no revert iff canonical, all words); needs_clamp of both pipelines over a 311-type family. Static return data: C12; constructor arguments: C13.",
+        "Trusted: vverif/spec_abi.py (from the ABI specification), spec_source.py, bytecode denotation, z3. abi_decode() is not in the reference semantics yet (covered relationally in C02).",
         "DESIGN.md 3/C05",
     ),
     "C06": (
@@ -180,7 +180,7 @@ CLAIMED = {
         "proof",
         "contract-based deductive verification: VCs generated from the live Python source (PyVC) of the Venom analysis kernels, discharged by z3/cvc5",
         "Unbounded proofs (all inputs) of soundness contracts on the kernels every Venom pass trusts: the 20 range evaluators and eval_op, "
-        "ValueRange lattice operations, branch refinement (_apply_compare/_narrow_var/_apply_iszero/_apply_eq). Scoped: whole-pass simulation is not decided.",
+        "ValueRange lattice operations, branch refinement (_apply_compare/_narrow_var/_apply_iszero/_apply_eq), SCCP arithmetic, MemoryLocation overlap, the range clients of the passes. Scoped: whole-pass simulation is not decided; IR well-formedness after the pipeline and the printer/parser round trip are bounded stand-ins on 15 templates (re-parsed IR that compiles to different bytes is proved equivalent on the bytecode).",
         "Trusted: spec_evm.py, z3/cvc5, CPython semantics of the modelled builtins, the PyVC executor (mitigated: every counterexample is replayed natively before it is reported).",
         "DESIGN.md 3/C14",
     ),
